@@ -47,7 +47,9 @@ NAME_FILES = ("src/modules/", "src/eckey_impl.h", "src/ecdsa_impl.h", "src/eccom
 UTILITY = re.compile(r"context_is_|declassify|get_hash_context|_clear$|memclear|memczero|callback|_cmov$|is_zero_array|_count_bits|read_be|write_be")
 
 
-CHK_SKIP = re.compile(r"context_is_|declassify|callback|^mem|sha256")
+# not predicate entries: housekeeping, and the byte decoders (`set_b32_seckey` and `set_b32` + zero test are interchangeable;
+# which decoder consumes which input bytes is R-OBL's business, with its own equivalences)
+CHK_SKIP = re.compile(r"context_is_|declassify|callback|^mem|sha256|_set_b32")
 # internal entry points that a property observes although they are not exported (the BP++ norm argument is reached only
 # through the tests in this fork)
 EXTRA_ROOTS = ("secp256k1_bppp_rangeproof_norm_product_verify", "secp256k1_bppp_rangeproof_norm_product_prove", "secp256k1_bppp_commit")
